@@ -70,7 +70,11 @@ var namePool = []string{"a.example", "b.example.", "c.example.net", "MiXed.Examp
 
 func pickIP(rng *mrand.Rand) []byte {
 	if rng.IntN(5) < 3 {
-		return v4pool[rng.IntN(len(v4pool))]
+		ip := v4pool[rng.IntN(len(v4pool))]
+		if rng.IntN(4) == 0 {
+			return net.IP(ip).To16() // the spelling net.ParseIP returns
+		}
+		return ip
 	}
 	return v6pool[rng.IntN(len(v6pool))]
 }
@@ -421,11 +425,13 @@ type expT struct {
 	rec  int // index of the contributing HTTPS record, -1 = plain address
 }
 
+// toAddr: the address a net.IP denotes. net.IP holds an IPv4 address in 4 or in 16 bytes (net.ParseIP returns the
+// long form); both spellings are the same IPv4 address (net.IP.To4), and that is what dialing "tcp4"/"tcp6" goes by.
 func toAddr(ip []byte) netip.Addr {
 	if len(ip) == 4 {
 		return netip.AddrFrom4([4]byte(ip))
 	}
-	return netip.AddrFrom16([16]byte(ip))
+	return netip.AddrFrom16([16]byte(ip)).Unmap()
 }
 
 // reference: service-mode records in order; each contributes the addresses of
@@ -444,7 +450,7 @@ func reference(m *mRes, network string, out []expT) (res []expT, filtered, colla
 		fam = 16
 	}
 	add := func(ip []byte, port uint16, rec int) {
-		if fam != 0 && len(ip) != fam {
+		if is4 := toAddr(ip).Is4(); fam == 4 && !is4 || fam == 16 && is4 {
 			filtered++
 			return
 		}
